@@ -130,7 +130,7 @@ def start_record(rng, xs, ys):
     """Start series + how the Weaver is constructed (plain constructor with array / list / int arguments, or a factory)."""
     r = rng.random()
     if r < 0.7:
-        return {"x": [R(v) for v in xs], "y": [R(v) for v in ys], "container": rng.choice(["array", "array", "list", "int"])}
+        return {"x": [R(v) for v in xs], "y": [R(v) for v in ys], "container": rng.choice(["array", "array", "list", "int", "series"])}
     if r < 0.8 and all(v == i for i, v in enumerate(xs)):
         return {"x": [R(v) for v in xs], "y": [R(v) for v in ys], "ctor": "none_x"}
     return {"x": [R(v) for v in xs], "y": [R(v) for v in ys], "ctor": rng.choice(["2d", "csv", "df", "df_named", "df_swapped"])}
